@@ -41,7 +41,7 @@ def build(spec, env):
 class Run:
     """everything observed in one scheduler run"""
 
-    def __init__(self, spec, clause="C12.no_exception", monitor=None, lab=None, detach_out=False):
+    def __init__(self, spec, clause="C12.no_exception", monitor=None, lab=None, detach_out=False, record_states=False):
         self.spec = spec
         self.lab = lab = lab if lab is not None else Lab(clause=clause)
         self.sched = sched = build(spec, lab.env)
@@ -51,6 +51,7 @@ class Run:
         # being handed over has left - it is neither waiting nor in transmission any more
         self.out.on_put = lambda rec: self._counters("C12.counters/handoff", at_handoff=True)
         self.detached = detach_out
+        self.record_states = record_states or detach_out     # polling size(f) of every flow has a side effect (it registers the flow)
         self.states = []        # (now, per-flow (size, bytes), id of the packet in service) after every step
         if detach_out:
             sched.out = None    # a scheduler without a next hop is legal: transmitted packets simply leave the simulation
@@ -73,9 +74,10 @@ class Run:
 
     def _after_step(self):
         sched = self.sched
-        p = sched.packet_in_service
-        self.states.append((self.lab.env.now, tuple((f, sched.size(f), sched.byte_size(f)) for f in self.flows),
-                            None if p is None else p.packet_id))
+        if self.record_states:
+            p = sched.packet_in_service
+            self.states.append((self.lab.env.now, tuple((f, sched.size(f), sched.byte_size(f)) for f in self.flows),
+                                None if p is None else p.packet_id))
         if self.detached:
             return
         self._counters("C12.counters/flow")
